@@ -63,6 +63,17 @@ theorem failure_sentinels_rejected :
 Before the fix `min(zeros, nan)` kept `zeros` and a `nan` ratio was ACCEPTED with probability 1. -/
 theorem nan_hastings_rejected : Sentinel.nan ∈ TTGen.C15_RunOrder.loopFailureTests := by decide
 
+/-- (fixed code, F71) **json_defaults_match_constructor**: for every operator / adaptor / integrator option that has a
+literal default both in the JSON layer (`data.get(key, d)` in `from_json` / `_parse_json`) and in the constructor, the
+two defaults are the same literal: an object built from a dictionary that does not name the option is the object the
+constructor builds when the option is not named.  (Before the fix `_parse_json` defaulted
+`acceptance_window_length` to `False`, i.e. a window of length 0, against the constructor's 100.) -/
+theorem json_defaults_match_constructor :
+    ∀ r ∈ TTGen.C15_RunOrder.optionDefaults, r.2.2.1 = r.2.2.2 := by
+  have h : (TTGen.C15_RunOrder.optionDefaults.all fun r => decide (r.2.2.1 = r.2.2.2)) = true := by decide
+  intro r hr
+  exact of_decide_eq_true ((List.all_eq_true.mp h) r hr)
+
 /-- no operator / adaptor / integrator constructor mutates a mutable default argument (a shared list such as
 `HMCOperator(adaptors=[])` is harmless only as long as nobody appends to it) -/
 theorem mutable_defaults_not_mutated :
